@@ -55,7 +55,8 @@ def gen_cases(ctx):
         return [rng.randint(-8, 8) / 8 * scale if rng.random() < nz else 0.0 for _ in range(6)]
     for _ in range(250 if ctx.quick else 3000):
         dx = rng.choice([512.0, 800.0, 1024.0, 4000.0]); dy = rng.choice([dx, dx, 2 * dx, dx / 2, 1000.0])
-        dt = rng.choice([60.0, 256.0, 600.0, 1024.0])
+        # whole seconds (what TimeKeeper delivers) and, through a hand-made time module, steps with a fraction of a second
+        dt = rng.choice([60.0, 256.0, 600.0, 1024.0, 60.0, 600.0, 37.5, 112.5, 0.75])
         scale = 0.6 * dx / dt  # about 0.6 cell per step at most per coefficient
         nz = rng.choice([0.3, 0.7, 1.0])
         cu, cv = coef(scale, nz), coef(scale, nz)
